@@ -20,4 +20,9 @@ def check(ctx: Ctx) -> str:
     newline_rules(ctx, "R1")
     comment_raw_rules(ctx, "R3")
     lstrip_rules(ctx, "R4")
+    # newline_sequence / keep_trailing_newline reach the text only through the Lexer built for
+    # *this* environment: an overlay must not keep its parent's lexer or cached templates
+    from . import c13
+
+    ctx.run_imported("C13", {"R3", "R6"}, c13.check)
     return __doc__ or ""
